@@ -611,3 +611,143 @@ theorem exists_pinv (p : Nat) : ∃ pinv : Matrix (Fin p) (Fin p) ℝ → Matrix
     ∀ S : Matrix (Fin p) (Fin p) ℝ, IsUnit S.det → pinv S = S⁻¹ := ⟨fun S => S⁻¹, fun _ _ => rfl⟩
 
 end PP.Filter
+
+namespace PP.Filter
+open Matrix
+
+/-! ### the witness for the necessity of a non-negative centre weight -/
+
+abbrev M1 := Matrix (Fin 1) (Fin 1) ℝ
+
+/-- the witness system: `f(x,u) = x` (written in affine form), `g(x,u) = x² + x` -/
+noncomputable def witnessSys : Sys ℝ 1 1 1 where
+  f x u := vadd (vadd (Filter.mulVec (1 : M1) x) (Filter.mulVec (0 : M1) u)) 0
+  g x _ := fun _ => x 0 * x 0 + x 0
+  jf _ _ := (1 : M1)
+  jg x _ := fun _ _ => 2 * x 0 + 1
+
+theorem fsum_one (f : Fin 1 → ℝ) : fsum f = f 0 := by simp [fsum_eq_sum]
+
+end PP.Filter
+
+namespace PP.Filter
+open Matrix Finset
+
+/-! ### histories on one object over linear-Gaussian systems; expectation over independently drawn indices -/
+
+section objruns
+variable {n m p M N : Nat}
+
+/-- one call on a linear-Gaussian system as the API sees it: the covariances the call would pass, whether it passes them,
+and the sigma-point parameter it passes (`none` = default) -/
+structure LinCall (n m p : Nat) where
+  l : LinStep n m p
+  passQ : Bool
+  passR : Bool
+  kk : Option ℝ
+
+noncomputable def LinCall.toCall (c : LinCall n m p) : Call ℝ n m p :=
+  ⟨affSys c.l.A c.l.B c.l.C c.l.D c.l.c1 c.l.c2, c.l.u, c.l.y,
+   if c.passQ then some c.l.Q else none, if c.passR then some c.l.R else none, c.kk⟩
+
+/-- the linear-Gaussian step in force on an object that stores `stQ`, `stR` -/
+def LinCall.eff (stQ : Matrix (Fin n) (Fin n) ℝ) (stR : Matrix (Fin p) (Fin p) ℝ) (c : LinCall n m p) : LinStep n m p :=
+  { c.l with Q := if c.passQ then c.l.Q else stQ, R := if c.passR then c.l.R else stR }
+
+theorem LinCall.toStep_eq (stQ : Matrix (Fin n) (Fin n) ℝ) (stR : Matrix (Fin p) (Fin p) ℝ) (c : LinCall n m p) :
+    c.toCall.toStep (some stQ) (some stR) = some (c.eff stQ stR).toStep := by
+  cases c with
+  | mk l pq pr kk => cases pq <;> cases pr <;> simp [LinCall.toCall, LinCall.eff, Call.toStep, resolve, LinStep.toStep]
+
+/-- expectation of `F(idx)` when the `N` indices are drawn independently, index `i` with probability `w i`
+(a finite sum over all index tuples) -/
+noncomputable def expectIdx (w : Fin M → ℝ) (F : (Fin N → Fin M) → ℝ) : ℝ :=
+  ∑ f : Fin N → Fin M, (∏ j, w (f j)) * F f
+
+theorem expectIdx_prod (w : Fin M → ℝ) (g : Fin N → Fin M → ℝ) :
+    expectIdx w (fun f => ∏ j, g j (f j)) = ∏ j, ∑ i, w i * g j i := by
+  unfold expectIdx
+  rw [Finset.prod_univ_sum, Fintype.piFinset_univ]
+  exact Finset.sum_congr rfl fun f _ => by rw [Finset.prod_mul_distrib]
+
+theorem expectIdx_add (w : Fin M → ℝ) (F G : (Fin N → Fin M) → ℝ) :
+    expectIdx w (fun f => F f + G f) = expectIdx w F + expectIdx w G := by
+  simp only [expectIdx, mul_add, Finset.sum_add_distrib]
+
+theorem expectIdx_sum {ι : Type} (s : Finset ι) (w : Fin M → ℝ) (F : ι → (Fin N → Fin M) → ℝ) :
+    expectIdx w (fun f => ∑ a ∈ s, F a f) = ∑ a ∈ s, expectIdx w (F a) := by
+  simp only [expectIdx, Finset.mul_sum]
+  rw [Finset.sum_comm]
+
+theorem expectIdx_const_mul (w : Fin M → ℝ) (c : ℝ) (F : (Fin N → Fin M) → ℝ) :
+    expectIdx w (fun f => c * F f) = c * expectIdx w F := by
+  simp only [expectIdx, Finset.mul_sum]
+  exact Finset.sum_congr rfl fun f _ => by ring
+
+theorem expectIdx_coord (w : Fin M → ℝ) (hw : ∑ i, w i = 1) (h : Fin M → ℝ) (j0 : Fin N) :
+    expectIdx w (fun f => h (f j0)) = ∑ i, w i * h i := by
+  have := expectIdx_prod w (fun j i => if j = j0 then h i else 1)
+  simp only [Finset.prod_ite_eq', Finset.mem_univ, if_true] at this
+  rw [this]
+  have : ∀ j, (∑ i, w i * if j = j0 then h i else 1) = if j = j0 then ∑ i, w i * h i else 1 := by
+    intro j; by_cases hj : j = j0 <;> simp [hj, hw]
+  simp only [this, Finset.prod_ite_eq', Finset.mem_univ, if_true]
+
+theorem expectIdx_two (w : Fin M → ℝ) (hw : ∑ i, w i = 1) (h h' : Fin M → ℝ) (j0 l0 : Fin N) (hne : j0 ≠ l0) :
+    expectIdx w (fun f => h (f j0) * h' (f l0)) = (∑ i, w i * h i) * ∑ i, w i * h' i := by
+  have := expectIdx_prod w (fun j i => (if j = j0 then h i else 1) * (if j = l0 then h' i else 1))
+  simp only [Finset.prod_mul_distrib, Finset.prod_ite_eq', Finset.mem_univ, if_true] at this
+  rw [this]
+  have hj : ∀ j, (∑ i, w i * ((if j = j0 then h i else 1) * if j = l0 then h' i else 1)) =
+      (if j = j0 then ∑ i, w i * h i else 1) * (if j = l0 then ∑ i, w i * h' i else 1) := by
+    intro j
+    by_cases h1 : j = j0
+    · have h2 : j ≠ l0 := fun e => hne (h1.symm.trans e)
+      simp [h1, hne]
+    · by_cases h2 : j = l0
+      · subst h2
+        simp [h1]
+      · simp [h1, h2, hw]
+  simp only [hj, Finset.prod_mul_distrib, Finset.prod_ite_eq', Finset.mem_univ, if_true]
+
+/-- multinomial resampling is unbiased: the expected mean of the resampled values is the weighted mean -/
+theorem resample_mean_expect (w : Fin M → ℝ) (hw : ∑ i, w i = 1) (hN : 0 < N) (h : Fin M → ℝ) :
+    expectIdx (N := N) w (fun f => (∑ j, h (f j)) / N) = ∑ i, w i * h i := by
+  have hN' : (N : ℝ) ≠ 0 := by exact_mod_cast hN.ne'
+  have e : (fun f : Fin N → Fin M => (∑ j, h (f j)) / N) = fun f => (1 / (N : ℝ)) * ∑ j, h (f j) := by
+    funext f; ring
+  rw [e, expectIdx_const_mul, expectIdx_sum]
+  simp only [expectIdx_coord w hw h, Finset.sum_const, Finset.card_univ, Fintype.card_fin, nsmul_eq_mul]
+  field_simp
+
+/-- ... and its variance is the weighted variance divided by `N` (the Monte-Carlo rate of the resampling stage) -/
+theorem resample_mean_variance (w : Fin M → ℝ) (hw : ∑ i, w i = 1) (hN : 0 < N) (h : Fin M → ℝ) :
+    expectIdx (N := N) w (fun f => ((∑ j, h (f j)) / N - ∑ i, w i * h i) ^ 2)
+      = (∑ i, w i * (h i - ∑ i, w i * h i) ^ 2) / N := by
+  have hN' : (N : ℝ) ≠ 0 := by exact_mod_cast hN.ne'
+  set μ := ∑ i, w i * h i with hμ
+  set d : Fin M → ℝ := fun i => h i - μ with hd
+  have hd0 : ∑ i, w i * d i = 0 := by
+    simp only [hd, mul_sub, Finset.sum_sub_distrib, ← Finset.sum_mul, hw, one_mul, ← hμ, sub_self]
+  have e : (fun f : Fin N → Fin M => ((∑ j, h (f j)) / N - μ) ^ 2)
+      = fun f => (1 / (N : ℝ)) ^ 2 * ∑ j, ∑ l, d (f j) * d (f l) := by
+    funext f
+    have : (∑ j, h (f j)) / N - μ = (1 / (N : ℝ)) * ∑ j, d (f j) := by
+      simp only [hd, Finset.sum_sub_distrib, Finset.sum_const, Finset.card_univ, Fintype.card_fin, nsmul_eq_mul]
+      field_simp
+    rw [this, mul_pow, pow_two (∑ j, d (f j)), Finset.sum_mul_sum]
+  rw [e, expectIdx_const_mul, expectIdx_sum]
+  have inner : ∀ j : Fin N, expectIdx w (fun f => ∑ l, d (f j) * d (f l)) = ∑ i, w i * d i ^ 2 := by
+    intro j
+    rw [expectIdx_sum, Finset.sum_eq_single j]
+    · have := expectIdx_coord (N := N) w hw (fun i => d i * d i) j
+      simpa only [pow_two] using this
+    · intro l _ hl
+      rw [expectIdx_two w hw d d j l (Ne.symm hl), hd0, zero_mul]
+    · intro hj; exact absurd (Finset.mem_univ j) hj
+  simp only [inner, Finset.sum_const, Finset.card_univ, Fintype.card_fin, nsmul_eq_mul]
+  field_simp
+  rfl
+
+end objruns
+end PP.Filter
